@@ -31,7 +31,7 @@ def plan(tier, seed):
     return [{'n': 260, 'gdb_shim': True, 'tui': 2500} for _ in range(56)] + [{'mode': 'tierb', 'n': 25, 'gdb_shim': True} for _ in range(8)]
 
 
-def gen_user_command(rng, g, names):
+def gen_user_command(rng, g, names, appids=()):
     """-> (gdb command name, arg, kind, payload)"""
     r = rng.random()
     if r < 0.45:
@@ -39,7 +39,9 @@ def gen_user_command(rng, g, names):
         nm, pre = rng.choice([('wl', 'breakpoint '), ('wl', 'b '), ('wlbreakpoint', ''), ('w', 'break ')])
         return nm, pre + text, 'breakpoint', ast
     if r < 0.6:
-        arg = rng.choice(names + ['all', 'bogus'])
+        arg = rng.choice(names + ['all', 'bogus'] + list(appids)[:4])
+        if appids and rng.random() < 0.3:
+            arg = rng.choice(list(appids))
         nm, pre = rng.choice([('wl', 'connection '), ('wlconnection', ''), ('wl', 'c ')])
         return nm, pre + arg, 'connection', arg
     if r < 0.7:
@@ -52,8 +54,9 @@ def gen_user_command(rng, g, names):
 
 def run_gdb_session(ctx, rng, cands, trace=None):
     k = rng.randint(1, 4)
-    st = streams.build(rng, cands, k=k, n_each=(15, 60), tagged=True)
+    st = streams.build(rng, cands, k=k, n_each=(15, 60), tagged=True, opts={'titles': rng.choice([0.02, 0.1])})
     projs = [c05.project(e, st['names'][e['ci']], {'new': True, 'comma': False}) for e in st['entries']]
+    appids = [a for a in (streams.app_id_of(e['rec']) for e in st['entries']) if a and ' ' not in a]
     g = mgen.Gen(rng, mgen.vocab_of(projs), depth=1)
     b_text, b_ast = (None, None)
     if rng.random() < 0.6:
@@ -67,8 +70,11 @@ def run_gdb_session(ctx, rng, cands, trace=None):
     state = joinref.from_matcher(b_ast) if b_ast is not None else ('const', False)
     selection = None
     opened = []
+    app_ids = {}
     script = []
     halts = runs = 0
+    seq = 0
+    order = []
     names = list(st['names'].values())
     for ci in st['names']:
         gs.new_connection(ci, st['sides'][ci])
@@ -80,7 +86,7 @@ def run_gdb_session(ctx, rng, cands, trace=None):
         """commands at the prompt; -> 'continue' | 'quit' | 'halted'"""
         nonlocal state, selection
         for _ in range(rng.randint(0, max_cmds)):
-            nm, arg, kind, payload = gen_user_command(rng, g, names)
+            nm, arg, kind, payload = gen_user_command(rng, g, names, appids)
             n0, x0 = gs.mark()
             script.append(['cmd', nm, arg])
             if trace is not None:
@@ -102,9 +108,9 @@ def run_gdb_session(ctx, rng, cands, trace=None):
                 if payload == 'all':
                     selection = None
                 else:
-                    hit = [n for n in opened if n.lower() == payload.lower()]
+                    hit = streams.select_connection(payload, opened, app_ids)
                     if hit:
-                        selection = hit[0]
+                        selection = hit
         if not halted:
             return 'continue'
         r = rng.random()
@@ -134,8 +140,25 @@ def run_gdb_session(ctx, rng, cands, trace=None):
 
     if user_phase(False, 2) == 'abort':
         return
+    after_halt = False
     for idx, e in enumerate(st['entries']):
         name = st['names'][e['ci']]
+        if rng.random() < (0.5 if after_halt else 0.03):
+            # libwayland destroys a connection the plugin has never seen: never a reason to halt, whatever happened before
+            seq += 1
+            order.append(['destroy'])
+            script.append(['destroy-never-seen'])
+            n0, x0 = gs.mark()
+            stop, exc = gs.sim.deliver({'kind': 'destroy', 'connection': gs.world.connection(), 'thread': 1})
+            ctx.ev()
+            ctx.count('destroy_events')
+            if exc is not None or stop:
+                ctx.violation('halt-at-destroy', 'wl_connection_destroy of an unrelated connection %s (previous event was a halt continued with gdb\'s continue: %r)' % (
+                    'raised %r' % (exc,) if exc is not None else 'halted the program', after_halt), dict(case_base, script=script[-60:]))
+                return
+        after_halt = False
+        seq += 1
+        order.append(['msg', idx])
         ev = gs.event_for(e['ci'], e['rec'], rng, 1)
         n0, x0 = gs.mark()
         script.append(['msg', idx])
@@ -147,6 +170,8 @@ def run_gdb_session(ctx, rng, cands, trace=None):
             return
         if name not in opened:
             opened.append(name)
+        if streams.app_id_of(e['rec']):
+            app_ids[name] = streams.app_id_of(e['rec'])
         lo, hi = joinref.selected(state, projs[idx])
         in_sel = selection is None or selection == name
         lines = gs.written_since(n0)
@@ -168,9 +193,10 @@ def run_gdb_session(ctx, rng, cands, trace=None):
             halts += 1
             ctx.setadd('transitions', 'run>halt')
             if trace is not None:
-                trace['cur'] = idx + 1
-                trace['halts'][idx + 1] = []
+                trace['cur'] = seq
+                trace['halts'][seq] = []
             res = user_phase(True, 4)
+            after_halt = script[-1] == ['gdb-continue']
             if res == 'abort':
                 return
             ctx.setadd('transitions', 'halt>' + res + ('(gdb)' if script[-1] == ['gdb-continue'] else ''))
@@ -181,6 +207,7 @@ def run_gdb_session(ctx, rng, cands, trace=None):
             ctx.setadd('transitions', 'run>run')
     if trace is not None:
         trace['complete'] = True
+        trace['order'] = order
     ctx.count('gdb_sessions')
     ctx.count('halts', halts)
     ctx.count('left_running', runs)
@@ -211,7 +238,11 @@ def run_tierb(ctx, rng, cands):
         return
     script = gdbreal.Script()
     conn = {ci: script.conn(st['sides'][ci]) for ci in st['names']}
-    for e in st['entries']:
+    for item in trace['order']:
+        if item[0] == 'destroy':
+            script.destroy(-1)
+            continue
+        e = st['entries'][item[1]]
         rec = e['rec']
         request = rec['send_c']
         sending = request if e['side'] == 'client' else not request
